@@ -304,10 +304,11 @@ Proof.
   rewrite E. f_equal. f_equal.
   assert (Hp' : p' = set_used p (used p') /\ ms (used p') = ms (used p)).
   { revert E. unfold pop. cbn [cur parents].
-    destruct (requireCPU 0 (cpu (used c)) p) as [p1| |] eqn:R1; try discriminate.
-    destruct (requireCPU_only_used _ _ _ Ht R1) as (A1 & A2 & A3).
-    destruct (requireMem (mem (used c)) p1) as [p2| |] eqn:R2; try discriminate.
-    destruct (requireMem_only_used _ _ _ R2) as (B1 & B2 & B3).
+    destruct (requireMem (mem (used c)) p) as [p1| |] eqn:R1; try discriminate.
+    destruct (requireMem_only_used _ _ _ R1) as (A1 & A2 & A3).
+    assert (Ht1 : trackTime p1 = false) by (rewrite A1; cbn; exact Ht).
+    destruct (requireCPU 0 (cpu (used c)) p1) as [p2| |] eqn:R2; try discriminate.
+    destruct (requireCPU_only_used _ _ _ Ht1 R2) as (B1 & B2 & B3).
     assert (Ht2 : trackTime p2 = false).
     { rewrite B1, A1. cbn. exact Ht. }
     rewrite Ht2. intros H; inversion H; subst p'.
